@@ -46,6 +46,19 @@ Proof.
     + exfalso. eapply ND; reflexivity.
     + destruct (query_visits (get_cont h t) q); auto.
     + destruct fr as [|[|[[c pre0] q0] todo] fr]; auto.
+    + (* PLVisit *) destruct (heads_all q).
+      * destruct (get_cont h n0); auto. destruct (strip_glob q); auto.
+      * destruct q as [|k r]; auto. destruct (get_cont h n0) as [| |cs]; auto. destruct (assoc k cs); auto.
+    + (* PLNext *) destruct fr as [|f fr]; auto. destruct (dtodo f) as [|[k c] rest]; auto.
+    + (* PLRet *) destruct fr as [|f fr]; auto. destruct del; cbn -[set_cont]; auto.
+      destruct P as [R [n1 [r0 [-> F]]]]. inversion F; subst.
+      pose proof (rooted_single _ _ R) as Z. subst n1.
+      assert (n <> 0) by (intros ->; specialize (NW MW (or_introl eq_refl)); discriminate).
+      apply get_cont_set_neq; auto.
+    + (* PLBack *) destruct fr as [|f fr]; auto. destruct del; cbn -[set_cont]; auto.
+      destruct P as [_ [_ F]]. inversion F as [|x f0 l fr0 [Ex _] _]; subst.
+      assert (n <> dn f) by (intros ->; specialize (NW MW (or_introl eq_refl)); discriminate).
+      destruct (get_cont h (dn f)); cbn -[set_cont]; auto. apply get_cont_set_neq; auto.
   - destruct SH as [_ [-> _]]. apply get_cont_upd_mu; auto.
   - destruct SH as [-> _]. apply get_cont_upd_mu; auto.
   - destruct SH as [_ [-> _]]. apply get_cont_upd_mu; auto.
@@ -287,6 +300,25 @@ Proof.
   - destruct fr as [|[|[[c pre0] q0] todo] fr]; cbn in SH.
     + destruct SH as [_ ->]. cbn. destruct o; exact I.
     + destruct SH as [n' [m' [hs' [_ [_ ->]]]]]. cbn. destruct o; exact I.
+    + destruct SH as [_ ->]. cbn. destruct o; exact I.
+  - (* PLDel *) destruct SH as [_ ->]. cbn. destruct o; exact I.
+  - (* PLDelAcq *) destruct SH as [_ [_ ->]]. cbn. destruct o; exact I.
+  - (* PLVisit *) destruct SH as [_ ->]. cbn [top tpc]. destruct (heads_all q).
+    + destruct (get_cont h n); [| |]; cbn; try (destruct o; exact I).
+      destruct (strip_glob q); cbn; destruct o; exact I.
+    + destruct q as [|k r]; cbn; [destruct o; exact I|].
+      destruct (get_cont h n) as [| |cs]; cbn; try (destruct o; exact I).
+      destruct (assoc k cs); cbn; destruct o; exact I.
+  - (* PLNext *) destruct fr as [|f fr]; cbn in SH.
+    + destruct SH as [_ ->]. cbn. destruct o; exact I.
+    + destruct SH as [_ ->]. cbn [top tpc]. destruct (dtodo f) as [|[k c] rest]; cbn; destruct o; exact I.
+  - (* PLEnter *) destruct SH as [_ ->]. cbn. destruct o; exact I.
+  - (* PLCAcq *) destruct SH as [_ [_ ->]]. cbn. destruct o; exact I.
+  - (* PLRet *) destruct fr as [|f fr]; cbn in SH.
+    + destruct SH as [_ ->]. cbn. destruct o; exact I.
+    + destruct SH as [n' [m' [hs' [_ [_ ->]]]]]. cbn. destruct o; exact I.
+  - (* PLBack *) destruct fr as [|f fr]; cbn -[set_cont] in SH.
+    + destruct SH as [_ ->]. cbn. destruct o; exact I.
     + destruct SH as [_ ->]. cbn. destruct o; exact I.
 Qed.
 
